@@ -507,6 +507,9 @@ impl Prop for OtherIterators {
                     let b: Vec<Vec<u8>> = copy.into_iter().map(|r| { use fasta::Record; r.head().to_vec() }).collect();
                     ensure!(a == b, "fasta/clone_from/records-differ", "the records of the clone_from() copy differ from the original's");
                 }
+                // after the read that reported the end (or an error) the set's reported length still equals what it yields
+                let yielded = set.into_iter().count();
+                ensure!(set.len() == yielded && set.is_empty() == (yielded == 0), "fasta/RecordSet/len-after-failed-read", "after the final read_record_set call the set reports len() = {} / is_empty() = {}, its iterator yields {} records", set.len(), set.is_empty(), yielded);
                 if known {
                     let mut rdr = fasta::Reader::with_capacity(&c.input[..], c.cap);
                     walk("fasta/RecordsIter", rdr.records(), n_items, extra)?;
@@ -539,6 +542,9 @@ impl Prop for OtherIterators {
                     let b: Vec<Vec<u8>> = copy.into_iter().map(|r| { use fastq::Record; r.head().to_vec() }).collect();
                     ensure!(a == b, "fastq/clone_from/records-differ", "the records of the clone_from() copy differ from the original's");
                 }
+                // after the read that reported the end (or an error) the set's reported length still equals what it yields
+                let yielded = set.into_iter().count();
+                ensure!(set.len() == yielded && set.is_empty() == (yielded == 0), "fastq/RecordSet/len-after-failed-read", "after the final read_record_set call the set reports len() = {} / is_empty() = {}, its iterator yields {} records", set.len(), set.is_empty(), yielded);
                 if known {
                     let mut rdr = fastq::Reader::with_capacity(&c.input[..], c.cap);
                     walk("fastq/RecordsIter", rdr.records(), n_items, extra)?;
